@@ -282,13 +282,16 @@ run_deflate(struct scn *s)
                         fprintf(out,
                                 "{\"e\":\"Call\",\"scn\":%d,\"seq\":%d,\"flush\":%d,\"eos\":%d,\"ai\":%u,\"ao\":%d,\"ret\":%d,\"c\":%u,\"p\":%u,"
                                 "\"ti\":%u,\"to\":%u,\"dti\":%u,\"dto\":%u,\"dni\":%ld,\"dno\":%ld,\"st\":\"%s\",\"st0\":\"%s\",\"hist\":%d,\"bv\":%u,\"bp\":%u,"
-                                "\"touched_outside\":%d,\"sh\":%d",
+                                "\"touched_outside\":%d,\"sh\":%d,\"b0\":\"%s\",\"t0\":%d,\"b1\":\"%s\",\"t1\":%d",
                                 s->id, i, c.flush, eos_set, ai0, c.ao, ret, cns, prd, z->total_in, z->total_out, z->total_in - ti0,
                                 z->total_out - to0, (long) (z->next_in - ni0), (long) (z->next_out - no0),
                                 zstate_name(z->internal_state.state), zstate_name(st0), z->internal_state.has_hist,
                                 z->internal_state.b_bytes_valid, z->internal_state.b_bytes_processed, canary != 0x7fffffff,
                                 /* try to (re)install the same table: must be refused while a block is open */
-                                ht && ret == COMP_OK && s->api == API_DEFLATE ? isal_deflate_set_hufftables(z, ht, IGZIP_HUFFTABLE_CUSTOM) : 99);
+                                ht && ret == COMP_OK && s->api == API_DEFLATE ? isal_deflate_set_hufftables(z, ht, IGZIP_HUFFTABLE_CUSTOM) : 99,
+                                zstate_name(st0 >= ZSTATE_TMP_NEW_HDR ? st0 - (ZSTATE_TMP_NEW_HDR - ZSTATE_NEW_HDR) : st0), st0 >= ZSTATE_TMP_NEW_HDR,
+                                zstate_name((int) z->internal_state.state >= ZSTATE_TMP_NEW_HDR ? (int) z->internal_state.state - (ZSTATE_TMP_NEW_HDR - ZSTATE_NEW_HDR) : (int) z->internal_state.state),
+                                (int) z->internal_state.state >= ZSTATE_TMP_NEW_HDR);
                         log_bytes("out", o, prd <= (uint32_t) c.ao ? prd : 0);
                         fprintf(out, "}\n");
                 }
